@@ -5,7 +5,6 @@
 package c19
 
 import (
-	"time"
 	"encoding/json"
 	"errors"
 	"fmt"
@@ -14,6 +13,7 @@ import (
 	"reflect"
 	"strings"
 	"testing"
+	"time"
 	"unsafe"
 
 	mocker "github.com/tencent/goom"
@@ -68,6 +68,33 @@ func noResult(x int) { vkit.Sink(uint64(x)) }
 
 //go:noinline
 func textFn(s string, bs []byte, e error) (string, error) { return "orig:" + s, e }
+
+//go:noinline
+func sliceFn(bs []byte, is []int, ss []string) ([]byte, []int) { return bs, is }
+
+// sliceLens are lengths around whatever a renderer might abbreviate at
+var sliceLens = []int{0, 1, 7, 8, 15, 16, 17, 31, 32, 33, 40, 64, 65, 100, 600}
+
+func slicesFor(code int64) ([]byte, []int, []string) {
+	if code < 0 {
+		code = -code
+	}
+	n := sliceLens[code%int64(len(sliceLens))]
+	m := sliceLens[(code/16)%int64(len(sliceLens))]
+	bs := make([]byte, n, n+int(code%3)*8)
+	is := make([]int, m)
+	ss := make([]string, n%41)
+	for i := range bs {
+		bs[i] = byte(i*7 + int(code))
+	}
+	for i := range is {
+		is[i] = i*1001 + int(code%97)
+	}
+	for i := range ss {
+		ss[i] = fmt.Sprint("s", i, code%13)
+	}
+	return bs, is, ss
+}
 
 // textFor builds text of 0..600 bytes from units of 1..4 bytes (ASCII, Latin, CJK, emoji), optionally with invalid UTF-8 or control characters
 func textFor(code int64) string {
@@ -156,8 +183,8 @@ type badPtrStringer struct{ n int }
 
 func (b *badPtrStringer) String() string { return fmt.Sprint(b.n) } // nil receiver: panics
 
-func box(e error) reflect.Value       { return reflect.ValueOf(&e).Elem() }
-func boxI(i interface{}) reflect.Value { return reflect.ValueOf(&i).Elem() }
+func box(e error) reflect.Value         { return reflect.ValueOf(&e).Elem() }
+func boxI(i interface{}) reflect.Value  { return reflect.ValueOf(&i).Elem() }
 func boxS(s fmt.Stringer) reflect.Value { return reflect.ValueOf(&s).Elem() }
 
 type scen struct {
@@ -281,7 +308,9 @@ func play(sc *scen) (tr []string) {
 			backing := make([]int, 3, 8)
 			copy(backing, []int{1, 2, 3})
 			va := [][]int{nil, {1}, backing, backing[:0], {}}[int(code(sc, i)%5+5)%5]
-			call("vints", func() []reflect.Value { return []reflect.Value{reflect.ValueOf(vints(int(code(sc, i)%100), "s", va...))} })
+			call("vints", func() []reflect.Value {
+				return []reflect.Value{reflect.ValueOf(vints(int(code(sc, i)%100), "s", va...))}
+			})
 			say("  callback saw %v, %s; the caller's slice afterwards %v", seen, shape, va)
 		}
 	case "method":
@@ -491,6 +520,32 @@ func play(sc *scen) (tr []string) {
 				return reflect.ValueOf(textFn).Call([]reflect.Value{reflect.ValueOf(in), reflect.ValueOf([]byte(nil)), reflect.Zero(reflect.TypeOf((*error)(nil)).Elem())})
 			})
 		}
+	case "slices":
+		// slices as arguments and results: what the caller's slices hold after the call, and what a Return stub hands out on
+		// repeated calls, is part of the transcript (a renderer must not write to what it renders)
+		for i := 0; i < 2; i++ {
+			bs, is, ss := slicesFor(code(sc, i))
+			rb, ri, _ := slicesFor(code(sc, i) + 5)
+			var saw string
+			b.Func(sliceFn).Apply(func(b []byte, n []int, s []string) ([]byte, []int) {
+				saw = fmt.Sprintf("%x %v %q", b, n, s)
+				return rb, ri
+			})
+			call(fmt.Sprintf("slices/cb len=%d,%d,%d", len(bs), len(is), len(ss)), func() []reflect.Value {
+				r0, r1 := sliceFn(bs, is, ss)
+				return []reflect.Value{reflect.ValueOf(r0), reflect.ValueOf(r1)}
+			})
+			say("  callback saw %s", saw)
+			say("  the caller's slices afterwards %x %v %q; the callback's result slices afterwards %x %v", bs, is, ss, rb, ri)
+			b.Func(sliceFn).Return(rb, ri)
+			for k := 0; k < 3; k++ {
+				call("slices/ret", func() []reflect.Value {
+					r0, r1 := sliceFn(bs, is, ss)
+					return []reflect.Value{reflect.ValueOf(r0), reflect.ValueOf(r1)}
+				})
+			}
+			say("  after 3 stubbed calls: caller's %x %v %q; stubbed values %x %v", bs, is, ss, rb, ri)
+		}
 	case "hostile2":
 		var saw string
 		b.Func(hostile2).Apply(func(a [64]byte, bb [40]int, m map[string]interface{}, c chan int, f func(), u unsafe.Pointer, z complex128, w wide, e [0]int) ([64]byte, [40]int, wide) {
@@ -508,7 +563,7 @@ func play(sc *scen) (tr []string) {
 		call("hostile2/ret", func() []reflect.Value { return reflect.ValueOf(hostile2).Call(hostile2Args(code(sc, 4))) })
 		b.Func(hostile2).When(arg.Any(), ra[1].Interface(), arg.Any(), arg.Any(), arg.Any(), arg.Any(), arg.Any(), arg.Any(), arg.Any()).Return([64]byte{9}, [40]int{9}, wide{})
 		call("hostile2/when-hit", func() []reflect.Value { return reflect.ValueOf(hostile2).Call(hostile2Args(code(sc, 3))) })
-		call("hostile2/when-miss", func() []reflect.Value { return reflect.ValueOf(hostile2).Call(hostile2Args(code(sc, 3)+1)) })
+		call("hostile2/when-miss", func() []reflect.Value { return reflect.ValueOf(hostile2).Call(hostile2Args(code(sc, 3) + 1)) })
 	}
 	return tr
 }
@@ -641,7 +696,7 @@ func TestVerifC19(t *testing.T) {
 	textImg = vkit.SnapshotText()
 	p := &vkit.Prop{ID: "C19", Unit: "scenarios", Journal: true, New: func() interface{} { return &scen{} },
 		Gen: func(rt *rapid.T) interface{} {
-			sc := &scen{Kind: rapid.SampledFrom([]string{"fn", "fn", "variadic", "method", "iface", "panic", "hostile", "hostile", "hostile2", "hostile2", "reapply", "reapply", "text", "text", "origin", "origin", "timenow"}).Draw(rt, "kind"),
+			sc := &scen{Kind: rapid.SampledFrom([]string{"fn", "fn", "variadic", "method", "iface", "panic", "hostile", "hostile", "hostile2", "hostile2", "reapply", "reapply", "text", "text", "origin", "origin", "timenow", "slices", "slices"}).Draw(rt, "kind"),
 				K: rapid.IntRange(0, 119).Draw(rt, "k")}
 			n := rapid.IntRange(1, 6).Draw(rt, "ncodes")
 			for i := 0; i < n; i++ {
